@@ -1302,3 +1302,114 @@ theorem recomb_core {s : Bool} {b : Nat} (hK : 54 ≤ IntN.K s b) (hK' : IntN.K 
         rw [hhi, hlo, IntN.fits_iff]; omega
 
 end Conv
+
+namespace Conv
+open F64 TwoFloat
+
+theorem tcmp_pf_of_WF (a b : TwoFloat) (ha : a.WF) (hb : b.WF) :
+    base.impl_PartialOrd_TwoFloat_for_TwoFloat.partial_cmp.pf a b = true := by
+  unfold base.impl_PartialOrd_TwoFloat_for_TwoFloat.partial_cmp.pf
+  split_ifs
+  · rfl
+  · rw [F64.NoOverlap.is_valid_pf a ha, F64.NoOverlap.is_valid_pf b hb]; rfl
+
+theorem unit_le_maxFin : F64.unit ≤ maxFin := by decide +kernel
+
+theorem upperB_WF {s : Bool} {b : Nat} (hK' : IntN.K s b ≤ 128) : (upperB s b).WF := by
+  have hm : (IntN.maxV s b).natAbs ≤ 2 ^ 128 := by
+    rw [maxV_natAbs]
+    have : 2 ^ IntN.K s b ≤ 2 ^ 128 := Nat.pow_le_pow_right (by decide) hK'
+    omega
+  refine ⟨ofInt_WF _ hm, ?_⟩
+  show (F64.neg (f64lit 0x3ff0000000000000)).WF
+  rw [f64lit_one_unit]
+  exact ⟨by rw [unit_eq]; exact rep_two_pow _, unit_le_maxFin⟩
+
+/-- **`T::try_from(x)` for the wide integer types**, valid finite `x` (given `TruncSpec`, and the
+validity of the constant `UPPER_BOUND`, checked by evaluation for each of the four types):
+`Ok(t)` with `t = trunc(hi + lo)` exactly when `t` lies in `T`'s range, `Err` otherwise; and no
+intermediate integer operation overflows. -/
+theorem tryFromBig_valid (T : TruncSpec) {s : Bool} {b : Nat} (hK : 54 ≤ IntN.K s b)
+    (hK' : IntN.K s b ≤ 128) (hUv : TwoFloat.is_valid (upperB s b) = true) (hUV : (upperB s b).Valid)
+    (x : TwoFloat) (hx : x.Valid) (hw : x.WF) :
+    (tryFromBig x : RResult (IntN s b)) =
+      (if IntN.fits s b (Int.tdiv x.V U) = true then Except.ok ⟨Int.tdiv x.V U⟩
+       else Except.error TwoFloatError.ConversionError) ∧
+    tryFromBigPf s b x = true := by
+  have ht := T.valid x hx hw
+  have hwt := T.wf x hx hw
+  have hV := T.value x hx hw
+  obtain ⟨hA, hB⟩ := range_cond hK hK' hUv hUV _ ht hwt _ hV
+  obtain ⟨-, -, hLW, -⟩ := lowerB_facts (s := s) (b := b) hK'
+  have hpf1 := tcmp_pf_of_WF _ _ hLW hwt
+  have hpf2 := tcmp_pf_of_WF _ _ hwt (upperB_WF (s := s) (b := b) hK')
+  unfold tryFromBig tryFromBigPf
+  rw [recombine_eq, recombinePf_eq, hpf1, hpf2, hA, hB]
+  generalize Int.tdiv x.V U = q at hV ⊢
+  by_cases hf : IntN.fits s b q = true
+  · obtain ⟨hq1, hq2⟩ := IntN.fits_iff.1 hf
+    obtain ⟨hw1, hw2⟩ := words_of_valid _ ht q hV
+    obtain ⟨hr1, hr2⟩ := recomb_core hK hK' _ ht.1 ht.2.1 q hf hw1 hw2
+    simp only [hq1, hq2, decide_true, Bool.and_self, Bool.not_true, Bool.false_eq_true, if_false,
+      if_true, hf, hr1, hr2]
+    exact ⟨trivial, trivial⟩
+  · have hc : (decide (IntN.minV s b ≤ q) && decide (q ≤ IntN.maxV s b)) = false := by
+      rw [← Bool.not_eq_true, Bool.and_eq_true, decide_eq_true_iff, decide_eq_true_iff]
+      exact fun h => hf (IntN.fits_iff.2 h)
+    simp only [hc, Bool.not_false, if_true, hf, Bool.false_eq_true, if_false]
+    cases decide (IntN.minV s b ≤ q) <;> simp
+
+end Conv
+
+namespace Conv
+open F64 TwoFloat
+
+theorem is_valid_of_hi_not_finite (t : TwoFloat) (h : t.hi.is_finite = false) :
+    TwoFloat.is_valid t = false := by
+  unfold TwoFloat.is_valid; rw [h]; rfl
+
+theorem is_valid_pf_of_hi_not_finite (t : TwoFloat) (h : t.hi.is_finite = false) :
+    TwoFloat.is_valid.pf t = true := by
+  unfold TwoFloat.is_valid.pf; rw [h]; rfl
+
+/-- a truncated value with a non-finite high word always fails the range check of the wide impls -/
+theorem recombine_not_finite {s : Bool} {b : Nat} (hK' : IntN.K s b ≤ 128)
+    (hUv : TwoFloat.is_valid (upperB s b) = true) (t : TwoFloat) (h : t.hi.is_finite = false) :
+    (recombine t : RResult (IntN s b)) = Except.error TwoFloatError.ConversionError ∧
+      recombinePf (s := s) (b := b) t = true := by
+  obtain ⟨-, hLv, hLW, -⟩ := lowerB_facts (s := s) (b := b) hK'
+  have hUW := upperB_WF (s := s) (b := b) hK'
+  have hvt := is_valid_of_hi_not_finite t h
+  have hB : ROrd.isLe (base.impl_PartialOrd_TwoFloat_for_TwoFloat.partial_cmp t (upperB s b)) = false := by
+    rw [partial_cmp_nf, hvt, hUv]
+    cases anyNan t (upperB s b) <;> rfl
+  have hpf1 : base.impl_PartialOrd_TwoFloat_for_TwoFloat.partial_cmp.pf (lowerB s b) t = true := by
+    unfold base.impl_PartialOrd_TwoFloat_for_TwoFloat.partial_cmp.pf
+    rw [F64.NoOverlap.is_valid_pf _ hLW, is_valid_pf_of_hi_not_finite t h]; simp
+  have hpf2 : base.impl_PartialOrd_TwoFloat_for_TwoFloat.partial_cmp.pf t (upperB s b) = true := by
+    unfold base.impl_PartialOrd_TwoFloat_for_TwoFloat.partial_cmp.pf
+    rw [F64.NoOverlap.is_valid_pf _ hUW, is_valid_pf_of_hi_not_finite t h]; simp
+  rw [recombine_eq, recombinePf_eq, hpf1, hpf2, hB]
+  simp
+
+/-- a non-finite high word (NaN, ±∞) is always a conversion error for the wide types, for ANY low word -/
+theorem tryFromBig_not_finite {s : Bool} {b : Nat} (hK' : IntN.K s b ≤ 128)
+    (hUv : TwoFloat.is_valid (upperB s b) = true) (x : TwoFloat) (h : x.hi.is_finite = false) :
+    (tryFromBig x : RResult (IntN s b)) = Except.error TwoFloatError.ConversionError ∧
+      tryFromBigPf s b x = true :=
+  recombine_not_finite hK' hUv _ (trunc_hi_not_finite x h)
+
+/-- **round trip** for the wide types, exact case: `T::try_from(TwoFloat::from(n)) == Ok(n)` whenever the
+remainder `n - RN(n)` is representable (always for 64 bits; at most 106 significant bits for 128) -/
+theorem tryFromBig_fromBig (T : TruncSpec) {s : Bool} {b : Nat} (hK : 54 ≤ IntN.K s b)
+    (hK' : IntN.K s b ≤ 128) (hUv : TwoFloat.is_valid (upperB s b) = true) (hUV : (upperB s b).Valid)
+    (v : IntN s b) (hv : v.inRange = true) (hr : Rep (v.v - rnI v.v).natAbs) :
+    (tryFromBig (fromBig v) : RResult (IntN s b)) = Except.ok v := by
+  obtain ⟨-, hV, hval, hwf⟩ := fromBig_exact hK hK' v hv hr
+  rw [(tryFromBig_valid T hK hK' hUv hUV _ hval hwf).1, hV]
+  have : (v.v * U).tdiv U = v.v := Int.mul_tdiv_cancel _ (ne_of_gt unit_posI)
+  rw [this]
+  have : IntN.fits s b v.v = true := hv
+  rw [if_pos this]
+
+end Conv
